@@ -84,9 +84,16 @@ package contracts
 //@ extern func (a net.Addr) Network() (s string)
 //@   pure
 //@   ensures s == addrNet[ref(a)]
+//@ uf udpStr(ip string, port mathint) string
+//@ uf validUDP(s string) bool
 //@ extern func (a *net.UDPAddr) String() (s string)
 //@   pure
-//@   ensures s == addrStr[ref(a)]
+//@   ensures s == udpStr(ipStr[base(a.IP)], a.Port)
+//@ extern func net.ResolveUDPAddr(network string, address string) (r *net.UDPAddr, err error)
+//@   pure
+//@   ensures (err == nil) == validUDP(address)
+//@   ensures err == nil ==> r != nil && fresh(r) && udpStr(ipStr[base(r.IP)], r.Port) == address
+//@   ensures err != nil ==> r == nil
 //@ extern func (a *net.UDPAddr) Network() (s string)
 //@   pure
 //@   ensures s == addrNet[ref(a)]
